@@ -46,6 +46,8 @@ struct SimStream {
 	uint64_t reads = 0;
 	std::string name;
 	FILE *fp = nullptr;
+	void *cookie = nullptr; // FileCookie of the FILE this stream is read through
+	FILE *recycled_fp = nullptr; // closed, but its FILE is kept in the pool for the next stream
 };
 
 // Why a library call did not return normally.
@@ -95,6 +97,12 @@ struct World {
 	// ---- S9 stdout
 	int stdout_fd = -1;     // memfd that replaced fd 1 (or -1 when not captured)
 	off_t stdout_seen = 0;
+	// FILE address reuse (S2b): a real allocator hands the FILE of a closed stream out again for the next one opened.
+	// ASan's quarantine hides that; with this knob a closed simulated stream's FILE is kept and re-targeted instead.
+	bool recycle_files = false;
+	std::vector<FILE *> file_pool;
+	uint64_t files_recycled = 0;
+	uint64_t stream_use_after_close = 0;
 	bool stdin_captured = false;
 	uint64_t poll_stdin(); // bytes the process read from its standard input since the last poll
 
